@@ -38,6 +38,10 @@ func (p c05) Run(c *core.Ctx) {
 		p.unsettable(c)
 		return
 	}
+	if c.Index%25 == 6 {
+		p.supplied(c)
+		return
+	}
 	if c.Index%5 == 4 {
 		p.retry(c)
 		return
@@ -612,4 +616,54 @@ func (p c05) unsettable(c *core.Ctx) {
 		return
 	}
 	c.Nontrivial("unsettable|" + g.Sc.GraphSig())
+}
+
+// supplied: a post-processor hands back a component's registered instance from its before-instantiation
+// callback. That component is not built by the container: it passes every after-initialization callback
+// once and nothing else - in particular not a second, ordinary lifecycle on top.
+func (p c05) supplied(c *core.Ctx) {
+	g := world.NewG(c.Rng)
+	t := g.AddNode([]int{0, 1, 3, 6, 12}[c.Rng.Intn(5)], g.FreshName(0)) // eager, has Init / AfterPropertiesSet
+	for x := 0; x < 1+c.Rng.Intn(3); x++ {
+		k := g.AddRandomNode(world.TypesEagerPlain, 0.2)
+		if c.Rng.Intn(2) == 0 {
+			g.EdgeByName(k, t, "", "iface")
+		}
+	}
+	g.ShuffleOrders()
+	tn := g.Sc.Nodes[t].DisplayName()
+	npp := 1 + c.Rng.Intn(3)
+	var extra []any
+	for k := 0; k < npp; k++ {
+		extra = append(extra, world.NewPP(c.Rng.Intn(4), fmt.Sprintf("pp%d", k), c.Rng.Intn(5)-2))
+	}
+	world.PPCoreOf(extra[c.Rng.Intn(npp)]).Supply = tn
+	r := world.Start(g.Sc, world.Options{Extra: extra})
+	c.Count("starts", 1)
+	c.Count("supplied_starts", 1)
+	if r.Outcome() != "ok" {
+		c.Fail("", "start did not succeed: "+core.Short(r.OutcomeDetail(), 300), failDetail(g.Sc, r, nil))
+		return
+	}
+	cnt := map[string]int{}
+	for _, e := range r.Log.Events() {
+		if e.Who == tn {
+			cnt[e.Kind]++
+		}
+	}
+	bad := ""
+	for _, k := range []string{"init", "aps", "pp-before", "pp-properties", "pp-after-inst"} {
+		if cnt[k] != 0 {
+			bad += fmt.Sprintf(" %s x%d", k, cnt[k])
+		}
+	}
+	if cnt["pp-after"] != npp {
+		bad += fmt.Sprintf(" pp-after x%d (want %d)", cnt["pp-after"], npp)
+	}
+	if bad != "" {
+		c.Fail("", fmt.Sprintf("component %q was supplied by a post-processor before instantiation; its callbacks:%s (expected: every after-initialization callback once, nothing else)", tn, bad),
+			failDetail(g.Sc, r, map[string]any{"events": renderEvents(r.Log.Events(), 80)}))
+		return
+	}
+	c.Nontrivial("supplied|" + g.Sc.GraphSig() + fmt.Sprint(npp))
 }
